@@ -24,7 +24,7 @@ ASSUMPTIONS = [
 ]
 TIMEOUT = {"quick": 300, "thorough": 1500}
 REQUIRED = {"post:joint_call": 100, "stat_tests": 100, "cases:permuted_layout": 30, "cases:merged_same_type": 30,
-            "guess_selections": 10, "normalisation_integrals": 10, "cases:large_or_extreme": 20}
+            "guess_selections": 10, "normalisation_integrals": 10, "cases:large_or_extreme": 20, "cases:bare_prior_posterior": 30}
 
 ZERO = -1e99  # the library represents zero density by -1e100
 
@@ -222,6 +222,24 @@ def check_object(rec, obj, layout, N, rng, tag, n_draws, priors):
         st.two_stage(rec, "draws-not-from-density", pv, n_draws,
                      lambda: f"{tag} sample(): coordinate {i} does not follow its density {co.describe()}", ctx)
 
+    # --- the coordinates of one draw are independent (every prior here is a product density)
+    if len(order) >= 2:
+        from scipy import stats as sst
+
+        def pv_ind(n, stage):
+            d = draw(n)
+            U = np.empty_like(d)
+            for col, i in enumerate(order):
+                U[:, col] = sst.norm.ppf(np.clip(layout[i].cdf(d[:, col]), 1e-12, 1 - 1e-12))
+            ps = []
+            for a in range(len(order)):
+                for b in range(a + 1, len(order)):
+                    ps.append(st.z_to_p((U[:, a] * U[:, b]).sum() / np.sqrt(n)))
+            return float(min(1.0, min(ps) * len(ps)))
+
+        st.two_stage(rec, "draw-coordinates-not-independent", pv_ind, n_draws,
+                     lambda: f"{tag} sample(): the coordinates of a draw are correlated although the density is a product", ctx)
+
 
 def run_job(job, rec):
     import inference.priors as priors
@@ -322,6 +340,37 @@ def run_job(job, rec):
             gref = np.array([layout[i].dlogpdf(theta[i]) for i in range(n)])
         rec.check((not isinstance(g, Raised)) and np.shape(g) == gref.shape and bool(np.all(np.abs(np.asarray(g) - gref) <= 1e-12 * np.abs(gref) + 1e-300)), "gradient",
                   lambda: f"{kind} prior over {n} variables: gradient differs from the reference", lctx)
+
+    # ------------------------------------------------ posterior built on a bare prior object, gradient called repeatedly
+    for c in range(max(3, job["n_single"] // 6)):
+        kind = ["G", "E", "U"][c % 3]
+        n = int(rng.integers(1, 4))
+        coords = [Coord(rng, kind) for _ in range(n)]
+        idx = list(range(n))
+        pr = guarded(build_component, priors, kind, coords, idx, rng)
+        twin = guarded(build_component, priors, kind, coords, idx, rng)   # never handed to a Posterior
+        bctx = {"bare_prior": kind, "n": n}
+        rec.context = bctx
+        if isinstance(pr, Raised) or isinstance(twin, Raised):
+            rec.violation("raised", f"constructor raised {pr!r}", bctx)
+            continue
+        m = int(rng.integers(1, 5))
+        A = rng.normal(size=(m, n))
+        yv = rng.normal(size=m)
+        lik = GaussianLikelihood(yv, np.full(m, 0.7), lambda t: A @ t, lambda t: A)
+        post = Posterior(likelihood=lik, prior=pr)
+        rec.count("cases:bare_prior_posterior")
+        for rep in range(3):
+            theta = np.array([co.inside_point(rng) for co in coords])
+            want = lik.gradient(theta) + twin.gradient(theta)
+            g = guarded(post.gradient, theta)
+            cg = guarded(post.cost_gradient, theta)
+            ok = (not isinstance(g, Raised)) and (not isinstance(cg, Raised)) and np.array_equal(np.asarray(g), want) and np.array_equal(np.asarray(cg), -want)
+            rec.check(ok, "posterior-gradient",
+                      lambda: f"{kind} prior, call {rep + 1}: Posterior.gradient = {g!r}, cost_gradient = {cg!r}; likelihood + prior gradient = {want}", bctx)
+            rec.check(np.array_equal(np.asarray(pr.gradient(theta)), np.asarray(twin.gradient(theta))), "prior-state-modified",
+                      lambda: f"{kind} prior: its gradient changed after being used inside a Posterior ({pr.gradient(theta)} vs {twin.gradient(theta)})", bctx)
+            rec.check(guarded(post, theta) == lik(theta) + twin(theta), "posterior-sum", "Posterior.__call__ != likelihood + prior", bctx)
 
     # ------------------------------------------------ joint priors
     for c in range(job["n_joint"]):
